@@ -49,9 +49,11 @@ int main(int argc, char **argv)
 	}
 	/* port */
 	{
-		static const char *SPECS[] = { "oct:48", "rsa:2048", "ec:P-256", "ec:P-384", "ec:P-521", "okp:Ed25519", "okp:Ed448" };
-		static const int ALGS[] = { JWT_ALG_HS384, JWT_ALG_RS256, JWT_ALG_ES256, JWT_ALG_ES384, JWT_ALG_ES512, JWT_ALG_EDDSA, JWT_ALG_EDDSA };
-		for (size_t i = 0; i < sizeof(SPECS) / sizeof(*SPECS); i++) {
+		/* the last keys are larger than anything the test suite ships (RSA above 8192 bits: signatures above 1024 octets; oct keys
+		 * above every hash block); the 16384-bit key only in the thorough tier */
+		static const char *SPECS[] = { "oct:48", "rsa:2048", "ec:P-256", "ec:P-384", "ec:P-521", "okp:Ed25519", "okp:Ed448", "oct:200", "rsafile:8200", "rsafile:8448", "rsafile:16384" };
+		static const int ALGS[] = { JWT_ALG_HS384, JWT_ALG_RS256, JWT_ALG_ES256, JWT_ALG_ES384, JWT_ALG_ES512, JWT_ALG_EDDSA, JWT_ALG_EDDSA, JWT_ALG_HS256, JWT_ALG_RS512, JWT_ALG_PS256, JWT_ALG_PS384 };
+		for (size_t i = 0; i < sizeof(SPECS) / sizeof(*SPECS) - (a.thorough ? 0 : 1); i++) {
 			vh_key_t k;
 			if (vh_key_gen(&k, SPECS[i], &rng)) vh_harness_fail("keygen");
 			for (int lp = 0; lp < 2; lp++) for (int up = 0; up < 2; up++) {
